@@ -135,11 +135,17 @@ impl MinCostFlowSolver {
         // type has enough maintenance slot.
         // The next maintenance slot is assigned to the vehicle type with the smallest priority
         // counter.
+        // vehicle types without any service distance need no maintenance (and would have the
+        // priority increment 0/0)
         let mut priority_counter: Vec<(VehicleTypeIdx, f32)> = self
             .vehicle_types
             .iter()
+            .filter(|vehicle_type| total_distances[vehicle_type] > Distance::ZERO)
             .map(|vehicle_type| (vehicle_type, 0.0))
             .collect();
+        if priority_counter.is_empty() {
+            return maintenance_slots;
+        }
 
         for maintenance_node in self.network.maintenance_nodes() {
             for _ in 0..self
